@@ -198,6 +198,9 @@ def main(tier, seed):
     from checks.c02 import gen_rows
 
     rep = Report(PID, tier, seed, "proof")
+    from engine import crosscheck
+
+    crosscheck.attach(rep, seed)
     rep.assumed_contract("core field functions are row-wise: PROVED here for magnet_cuboid_Bfield, dipole_Hfield, triangle_Bfield (real code under the shim, "
                          "checks/c06_cores.py); ASSUMED for the cylinder cores, magnet_cylinder_segment_Hfield, current_circle_Hfield (cel/el3 convergence loops) "
                          "and current_polyline_Hfield (obligations not decided by the solvers in time)")
